@@ -110,6 +110,14 @@ func formName(l litJ) string {
 	return "0x" + l.Form
 }
 
+// spelling names the way the value reached the library: the spelling class of the literal, or the API call.
+func spelling(cs *caseT, il litJ) string {
+	if cs.in.via != "" {
+		return "constant." + cs.in.via
+	}
+	return formName(il)
+}
+
 // caseT is one judged literal.
 type caseT struct {
 	in    input
@@ -140,6 +148,7 @@ type checker struct {
 	sigCount     map[string]int
 	invalidOK    int
 	llvmAccepted int
+	viaAPI       int // cases whose value went through constant.NewFloat
 }
 
 // judge runs the pipeline on the inputs: LLVM's reading of the inputs, the library, LLVM's
@@ -183,10 +192,10 @@ func (c *checker) judge(ins []input, label string) {
 			c.discardedIn++
 			continue
 		}
-		if seen[in.q.key()] {
+		if seen[in.q.key()+in.via] {
 			continue
 		}
-		seen[in.q.key()] = true
+		seen[in.q.key()+in.via] = true
 		cases = append(cases, &caseT{in: in, inR: r})
 	}
 	c.llvmAccepted += len(cases)
@@ -194,10 +203,15 @@ func (c *checker) judge(ins []input, label string) {
 	// --- the library
 	t1 := time.Now()
 	lq := make([]query, len(cases))
+	vals := make([]*float64, len(cases))
 	for i, cs := range cases {
 		lq[i] = cs.in.q
+		if cs.in.via == "NewFloat" {
+			v := cs.in.val
+			vals[i] = &v
+		}
 	}
-	libs := runLibrary(lq)
+	libs := runLibrary(lq, vals)
 	tLib := time.Since(t1)
 	// --- LLVM reads the printed literals
 	t2 := time.Now()
@@ -215,8 +229,11 @@ func (c *checker) judge(ins []input, label string) {
 	var rowCase []*caseT
 	for _, cs := range cases {
 		q := cs.in.q
-		rep.Count(q.key(), true)
+		rep.Count(q.key()+cs.in.via, true)
 		il := parseLit(q.lit)
+		if cs.in.via != "" {
+			c.viaAPI++
+		}
 		if cs.in.tag == "extra" {
 			// spellings outside the property's list: reported as notes only
 			if cs.lib.out == "" || outRead[query{q.kind, cs.lib.out}.key()].bits != cs.inR.bits {
@@ -225,7 +242,7 @@ func (c *checker) judge(ins []input, label string) {
 			continue
 		}
 		if cs.lib.problem != "" && cs.lib.out == "" {
-			sig := fmt.Sprintf("C10|%s|%s|%s", q.kind, formName(il), cs.lib.problem)
+			sig := fmt.Sprintf("C10|%s|%s|%s", q.kind, spelling(cs, il), cs.lib.problem)
 			if q.kind == "ppc_fp128" && strings.HasSuffix(cs.lib.problem, "panic") && !isShort(il) {
 				if s := classifyPPCPanic(cs.inR.bits); s != "" {
 					sig = s
@@ -235,7 +252,7 @@ func (c *checker) judge(ins []input, label string) {
 			continue
 		}
 		if cs.lib.problem != "" {
-			sig := fmt.Sprintf("C10|%s|%s|%s", q.kind, formName(il), cs.lib.problem)
+			sig := fmt.Sprintf("C10|%s|%s|%s", q.kind, spelling(cs, il), cs.lib.problem)
 			c.fail(sig, fmt.Sprintf("%s %s: %s", q.kind, q.lit, mbt.Truncate(cs.lib.detail, 300)), cs)
 		}
 		cs.outR = outRead[query{q.kind, cs.lib.out}.key()]
@@ -349,8 +366,12 @@ func (c *checker) fail(sig, what string, cs *caseT) {
 	if _, ok := c.sigExamples[sig]; !ok {
 		c.sigExamples[sig] = what
 	}
-	c.rep.Fail(mbt.Failure{Signature: sig, What: what, Case: map[string]string{"kind": cs.in.q.kind, "lit": cs.in.q.lit, "printed": cs.lib.out,
-		"llvm_bits_of_input": cs.inR.bits, "llvm_bits_of_printed": cs.outR.bits}})
+	cse := map[string]string{"kind": cs.in.q.kind, "lit": cs.in.q.lit, "printed": cs.lib.out,
+		"llvm_bits_of_input": cs.inR.bits, "llvm_bits_of_printed": cs.outR.bits}
+	if cs.in.via != "" {
+		cse["via"], cse["value"] = cs.in.via, strconv.FormatFloat(cs.in.val, 'x', -1, 64)
+	}
+	c.rep.Fail(mbt.Failure{Signature: sig, What: what, Case: cse})
 }
 
 // readVectors collects the vec_*.ndjson files TLC wrote.
@@ -423,6 +444,10 @@ func Run(tier, replay string) {
 		}
 	}
 	c.judge(vectors, "spec-vectors")
+	// PowerOfTwoNeighbours: the same values in decimal and through constant.NewFloat
+	p2 := pow2Derived(vectors, tier)
+	rep.Extra["power_of_two_neighbours"] = map[string]int{"hexadecimal_vectors_of_the_spec": countTag(vectors, "pow2"), "decimal_spellings_and_NewFloat_calls_derived": len(p2)}
+	c.judge(p2, "power-of-two-neighbours")
 	rep.Extra["half_patterns_changed"] = len(c.changedHalf)
 	rep.Extra["half_patterns_changed_predicted_by_as_implemented_model"] = len(predicted)
 	same := len(predicted) == len(c.changedHalf)
@@ -442,6 +467,16 @@ func Run(tier, replay string) {
 	c.judge(shortSpellings(rng, nRand/3), "short-spellings")
 	c.judge(decimalInputs(rng, nDec), "decimal-inputs")
 	c.finish(nHalf == 65536)
+}
+
+func countTag(ins []input, tag string) int {
+	n := 0
+	for _, in := range ins {
+		if in.tag == tag {
+			n++
+		}
+	}
+	return n
 }
 
 func inc(v interface{}) int {
@@ -467,6 +502,7 @@ func (c *checker) finish(halfExhaustive bool) {
 	rep.Extra["invalid_spellings_rejected_by_llvm_as_the_spec_says"] = c.invalidOK
 	rep.Extra["inputs_rejected_by_llvm_(outside_quantifier)"] = c.discardedIn
 	rep.Extra["llvm_spawns"] = spawns
+	rep.Extra["values_through_constant.NewFloat"] = c.viaAPI
 	rep.Extra["failing_cases_by_signature"] = c.sigCount
 	rep.Extra["spec_vector_deviations_equal_to_the_AsImplemented_model"] = c.asModelled
 	rep.Extra["spec_vector_deviations_not_modelled_(ppc_fp128_pair_arithmetic)"] = c.notModelled
@@ -505,7 +541,12 @@ func replayInputs(path string) []input {
 	var out []input
 	for _, f := range one.Failures {
 		if f.Case["kind"] != "" {
-			out = append(out, input{q: query{f.Case["kind"], f.Case["lit"]}, tag: "replay"})
+			in := input{q: query{f.Case["kind"], f.Case["lit"]}, tag: "replay"}
+			if f.Case["via"] != "" {
+				in.via = f.Case["via"]
+				in.val, _ = strconv.ParseFloat(f.Case["value"], 64)
+			}
+			out = append(out, in)
 		}
 	}
 	if len(out) == 0 {
